@@ -14,7 +14,7 @@ from common import Rng
 # `.code-decompressed` becomes an in-memory entry
 CODE = b'\x00\xF0' * 5 + b'CBA' + bytes([0b00011111]) + (22 | (8 << 24)).to_bytes(4, 'little') + (71).to_bytes(4, 'little')
 
-TREE = ['d', '', [['d', 'sub', [], [['b.bin', b'B' * 40]]]], [['a.txt', b'hello romfs'], ['c.bin', b'C' * 33]]]
+TREE = ['d', '', [['d', 'sub', [], [['b.bin', b'B' * 40]]]], [['a.txt', b'hello romfs'], ['c.bin', b'C' * 33], ['empty.bin', b'']]]
 
 
 def romfs_bytes():
